@@ -33,7 +33,19 @@ pub fn gen_hungarian(r: &mut Rng, tier: &str) -> Vec<Case> {
             let adm = i % 8 != 7;
             let size = if i % 5 == 0 { maxn } else { 6 };
             // long rows (64 or more columns: vectorised paths, chunking), generic and caobab-shaped
-            let m = if i % 20 == 3 {
+            let huge = i % 40 == 27;
+            let m = if huge {
+                // weights up to 2^27 with up to 9 rows: labels and deltas come close to (and may leave)
+                // the i32 range; only the range-checked model `HB` is compared on these
+                // (with 3 rows the weights go up to 2^29: the score still fits in 31 bits, sums of labels need not)
+                let tiny = i % 80 == 27;
+                let mut m = gen::gen_matrix(r, if tiny { 3 } else { 9 }, true);
+                let sh = if tiny { 28 } else { 22 + r.below(6) as u32 };
+                for w in m.w.iter_mut() {
+                    *w = ((r.next() >> 8) % (1u64 << sh)) as i32 + if r.chance(1, 3) { (1i32 << sh) - 3 } else { 0 };
+                }
+                m
+            } else if i % 20 == 3 {
                 gen::gen_matrix_sized(r, 64, 72, true)
             } else if i % 20 == 13 {
                 let places = 64 + r.usize(30);
@@ -42,7 +54,7 @@ pub fn gen_hungarian(r: &mut Rng, tier: &str) -> Vec<Case> {
                 gen::gen_matrix(r, size, adm)
             };
             // the memory layout is not part of the matrix: every fourth case is handed over column-major
-            Case { stream: "hungarian", data: json!({"m": m.to_json(), "layout": if i % 4 == 1 { "f" } else { "c" }}) }
+            Case { stream: "hungarian", data: json!({"m": m.to_json(), "layout": if i % 4 == 1 { "f" } else { "c" }, "huge": huge}) }
         })
         .collect()
 }
@@ -68,6 +80,7 @@ pub fn run_hungarian(data: &Value) -> Vec<Line> {
         ndarray::Array1::from_vec(m.skipy.clone()),
     );
     let res = catch(|| verif::hungarian_algorithm(&w, &d, &ma, &sx, &sy));
+    let huge = data["huge"].as_bool().unwrap_or(false);
     let text = m.to_text();
     let opt = if m.nx <= 9 { Some(brute::brute_matching(&m)) } else { None };
     let mut lines = vec![];
@@ -76,7 +89,11 @@ pub fn run_hungarian(data: &Value) -> Vec<Line> {
     match res {
         Ok((mm, sc)) => {
             let ms = mm.iter().map(|x| x.to_string()).collect::<Vec<_>>().join(",");
-            lines.push(Line::corr(&["C07", "C02"], "H", text.clone(), format!("M {} {}", ms, sc)).feat(&feat).trivial(live <= 1));
+            if !huge {
+                lines.push(Line::corr(&["C07", "C02"], "H", text.clone(), format!("M {} {}", ms, sc)).feat(&feat).trivial(live <= 1));
+            }
+            // the range-checked model (every intermediate value within i32) gives the same answer
+            lines.push(Line::corr(&["C07"], "HB", text.clone(), format!("M {} {}", ms, sc)).feat(&[if huge { "huge-weights:ok".to_string() } else { "i32".to_string() }]).trivial(live <= 1));
             lines.push(Line::spec(
                 &["C07"],
                 "HS",
@@ -90,8 +107,14 @@ pub fn run_hungarian(data: &Value) -> Vec<Line> {
                 lines.push(Line::direct(&["C07"], o == sc as i64, format!("brute-force optimum {} vs returned score {}", o, sc)).trivial(live <= 1));
             }
         }
+        Err(_) if huge => {
+            // beyond the property's weight bound an i32 overflow (a panic in this build) is legitimate;
+            // the range-checked model must fail on exactly the same inputs
+            lines.push(Line::corr(&["C07"], "HB", text, "P".to_string()).feat(&["huge-weights:overflow".to_string()]));
+        }
         Err(_) => {
-            lines.push(Line::corr(&["C07"], "H", text, "P".to_string()).feat(&["panic".to_string()]));
+            lines.push(Line::corr(&["C07"], "H", text.clone(), "P".to_string()).feat(&["panic".to_string()]));
+            lines.push(Line::corr(&["C07"], "HB", text, "P".to_string()));
             if let Some(Some(o)) = opt {
                 lines.push(Line::direct(&["C07"], false, format!("routine panicked although a constrained perfect matching of weight {} exists", o)));
             }
@@ -117,6 +140,8 @@ pub fn gen_node(r: &mut Rng, tier: &str, rooms: u8, nondyadic: bool, name: &'sta
             };
             let mut inst = if nondyadic && i % 6 == 5 {
                 if i % 12 == 5 { gen::gen_f32_corner(r) } else { gen::gen_f32_shrink_does_not_fit(r) }
+            } else if rooms >= 1 && i % 20 == 17 {
+                gen::gen_f32_tiny_fraction(r)
             } else if rooms == 2 && i % 20 == 7 {
                 gen::gen_many_courses_rooms(r)
             } else if rooms == 2 && i % 20 == 13 {
@@ -308,6 +333,9 @@ pub fn gen_solve(r: &mut Rng, tier: &str, rooms: u8, name: &'static str) -> Vec<
             if rooms >= 1 && i % 10 == 3 {
                 // the f32 corners of the room stage, as whole runs
                 inst = if i % 20 == 3 { gen::gen_f32_shrink_does_not_fit(r) } else { gen::gen_f32_corner(r) };
+            }
+            if rooms >= 1 && i % 20 == 15 {
+                inst = gen::gen_f32_tiny_fraction(r);
             }
             let mut small = small && inst.parts.len() <= 7 && inst.courses.len() <= 4;
             if rooms == 2 && i % 10 == 1 {
